@@ -156,7 +156,13 @@ def _cmp_inf(op, a_is_sym_left, other):
 class Sym(numbers.Real):
     """z3 Real/Int proxy behaving like a numpy scalar."""
     __slots__ = ("z",)
-    __hash__ = None
+
+    def __hash__(self):
+        # STRUCTURAL hash (z3 term hash): lets real code use symbolic values as dictionary keys / cache keys
+        # (e.g. a memo keyed by the state).  Equal terms collide and compare equal; different terms that happen
+        # to be equal in value are treated as different keys -- an under-approximation of cache hits, recorded
+        # here as a limitation: a violation found on such a path is replayed concretely like any other.
+        return self.z.hash()
 
     def __init__(self, z):
         self.z = z
